@@ -89,6 +89,12 @@ pub struct Scenario {
     /// the server validates the client's address with a Retry packet before it creates any connection state
     #[serde(default)]
     pub retry: bool,
+    /// RETIRE_CONNECTION_ID / NEW_CONNECTION_ID frames are delivered a second time in a later packet (retransmission duplicates)
+    #[serde(default)]
+    pub dup_cid_frames: bool,
+    /// client address changes alternate between two addresses instead of always moving on
+    #[serde(default)]
+    pub rebind_toggle: bool,
 }
 
 #[derive(Clone, Debug, Serialize, Deserialize)]
